@@ -72,7 +72,7 @@ FirstSeqF(F, N, s, k) ==      \* FIRST of s[k..] given FIRST function F and null
 
 RECURSIVE FirstFix(_, _, _, _)
 FirstFix(R, N, nts, F) ==
-  LET F2 == [A \in nts |-> F[A] \cup UNION {FirstSeqF(F, N, R[i].r, 1) : i \in {j \in 1..Len(R) : R[j].l = A}}]
+  LET F2 == TLCEval([A \in nts |-> F[A] \cup UNION {FirstSeqF(F, N, R[i].r, 1) : i \in {j \in 1..Len(R) : R[j].l = A}}])
   IN IF F2 = F THEN F ELSE FirstFix(R, N, nts, F2)
 
 RECURSIVE SeqNullable(_, _, _)
@@ -158,7 +158,7 @@ Analyze(G) ==
       so  == SymOrder(G)
       k0  == {<<Len(R), 0, Eof(G)>>}
       lr  == BuildLR(G, R, N, F, so, <<k0>>, {}, 1)
-      sts == [s \in 1..Len(lr.ks) |-> Closure(R, N, F, lr.ks[s], lr.ks[s])]
+      sts == TLCEval([s \in 1..Len(lr.ks) |-> Closure(R, N, F, lr.ks[s], lr.ks[s])])
       syms == Range(so)
       tgt(s, X) == LET m == {t \in lr.tr : t[1] = s /\ t[2] = X} IN (CHOOSE t \in m : TRUE)[3] - 1
       cell(s, X) == LET ck == CellKind(G, R, sts[s], X) IN
@@ -168,7 +168,7 @@ Analyze(G) ==
                       [] OTHER            -> <<ck[1], -1, ck[3], -1>>
   IN [ R |-> R, null |-> N, first |-> F, so |-> so,
        kernels |-> lr.ks, states |-> sts,
-       tbl |-> [s \in 1..Len(lr.ks) |-> [X \in syms |-> cell(s, X)]],
+       tbl |-> TLCEval([s \in 1..Len(lr.ks) |-> TLCEval([X \in syms |-> cell(s, X)])]),
        conflicts |-> {<<s, X>> \in (1..Len(lr.ks)) \X syms : IsT(X) /\ (CellKind(G, R, sts[s], X)[3] \/ CellKind(G, R, sts[s], X)[1] = "rr")},
        rr |-> {<<s, X>> \in (1..Len(lr.ks)) \X syms : IsT(X) /\ CellKind(G, R, sts[s], X)[1] = "rr"} ]
 
@@ -185,7 +185,7 @@ LangSeq(Lg, s, k, L) ==
 
 RECURSIVE LangFix(_, _, _, _)
 LangFix(R, nts, Lg, L) ==
-  LET L2 == [A \in nts |-> Lg[A] \cup UNION {LangSeq(Lg, R[i].r, 1, L) : i \in {j \in 1..Len(R) : R[j].l = A}}]
+  LET L2 == TLCEval([A \in nts |-> Lg[A] \cup UNION {LangSeq(Lg, R[i].r, 1, L) : i \in {j \in 1..Len(R) : R[j].l = A}}])
   IN IF L2 = Lg THEN Lg ELSE LangFix(R, nts, L2, L)
 Lang(G, L) == LangFix(XRules(G), NTs(G), [A \in NTs(G) |-> {}], L)
 
@@ -215,7 +215,7 @@ PrefSeq(Lg, Pf, P, s, k, L) ==     \* prefixes of yields of s[k..]; every symbol
 RECURSIVE PrefFix(_, _, _, _, _, _)
 PrefFix(R, nts, Lg, P, Pf, L) ==
   LET ok(j) == \A k \in 1..Len(R[j].r) : IsT(R[j].r[k]) \/ R[j].r[k] \in P
-      P2 == [A \in nts |-> Pf[A] \cup UNION {PrefSeq(Lg, Pf, P, R[i].r, 1, L) : i \in {j \in 1..Len(R) : R[j].l = A /\ ok(j)}}]
+      P2 == TLCEval([A \in nts |-> Pf[A] \cup UNION {PrefSeq(Lg, Pf, P, R[i].r, 1, L) : i \in {j \in 1..Len(R) : R[j].l = A /\ ok(j)}}])
   IN IF P2 = Pf THEN Pf ELSE PrefFix(R, nts, Lg, P, P2, L)
 PrefLang(G, L) == LET R == XRules(G) IN
                   PrefFix(R, NTs(G), Lang(G, L), ProdFix(R, {}), [A \in NTs(G) |-> {}], L)
